@@ -395,3 +395,58 @@ def create_checkpoint(chk, prefix, want):
 
 def sync_blocks(chk, prefix="C03"):
     return create_checkpoint(chk, prefix, want=("C03",))
+
+
+# ------------------------------------------------------------------------------------------------ CompletionEvent
+def completion_event_contract(chk, prefix="C03"):
+    """CompletionEvent.set / wait: first error wins; the error is stored BEFORE the event is set (so a waiter that wakes sees it);
+    wait raises the stored error, else returns.  OG: once the event is set the error field never changes again (first-wins),
+    hence what a woken waiter reads is stable under every other thread's set()."""
+    P = None
+
+    class H(Hooks):
+        def opaque_call(self, eng, st, fn, args, kwargs):
+            if fn.name == "Event.set":
+                owner = st.ghost["owner"]
+                st.emit("event_set", error_at_set=st.get(owner)["_error"])
+                st.ghost["is_set"] = T
+                return [("val", None, st)]
+            if fn.name == "Event.wait":
+                st.emit("event_wait")
+                return [("val", True, st)]
+            return Hooks.opaque_call(self, eng, st, fn, args, kwargs)
+    for stored_none in (True, False):
+        eng = Engine(hooks=H())
+        P = eng.program
+        cls = P.cls("threading.CompletionEvent")
+        chk.function("threading.CompletionEvent.set")
+        chk.function("threading.CompletionEvent.wait")
+        st = St()
+        old = None if stored_none else eng.new_symexc(st, "first_error")
+        ce = st.alloc(cls, {"_event": st.alloc("opaque:Event", {}), "_error": old})
+        st.ghost["owner"] = ce
+        new_none = z3.Bool("new_error.none")
+        new = mk_opt(new_none, eng.new_symexc(st, "new_error"))
+        for k, v, s in eng.run(cls.find_method("set"), [ce, new], st=st):
+            chk.paths += 1
+            sets = [e for e in s.trace if e.kind == "event_set"]
+            final = s.get(ce)["_error"]
+            ok = k == "val" and len(sets) == 1
+            goal = z3.BoolVal(ok)
+            if ok:
+                exp = old if old is not None else new
+                goal = z3.And(goal, ops.values_equal(s, final, exp), ops.values_equal(s, sets[0].error_at_set, final))
+            chk.prove(f"{prefix}.event.contract.set", s.pc, goal,
+                      desc="set(error): the first error wins (an existing error is kept); the error field already has its final value when the underlying Event is set (error before event: a woken waiter cannot miss it)",
+                      sample="CompletionEvent.set with / without a previously stored error")
+        st = St()
+        err = mk_opt(z3.Bool("stored.none"), eng.new_symexc(st, "stored"))
+        ce = st.alloc(cls, {"_event": st.alloc("opaque:Event", {}), "_error": err})
+        st.ghost["owner"] = ce
+        for k, v, s in eng.run(cls.find_method("wait"), [ce], st=st):
+            chk.paths += 1
+            waited = any(e.kind == "event_wait" for e in s.trace)
+            goal = z3.And(z3.BoolVal(waited), z3.If(is_none(err), z3.BoolVal(k == "val"), z3.BoolVal(k == "raise" and v == strip_opt(err))))
+            chk.prove(f"{prefix}.event.contract.wait", s.pc, goal, desc="wait() blocks on the event, then raises the stored error if there is one and returns otherwise")
+        break_ = stored_none
+    return None
